@@ -24,12 +24,12 @@ import (
 type Expr interface{ String() string }
 
 type (
-	EIdent  struct{ Name string }
-	EInt    struct{ V string }
-	EFloat  struct{ V string }
-	EStr    struct{ V string }
-	EBool   struct{ V bool }
-	EUnary  struct {
+	EIdent struct{ Name string }
+	EInt   struct{ V string }
+	EFloat struct{ V string }
+	EStr   struct{ V string }
+	EBool  struct{ V bool }
+	EUnary struct {
 		Op string
 		X  Expr
 	}
@@ -507,12 +507,12 @@ func (l *lexer) primary() Expr {
 
 type Clause struct {
 	Assumed bool // given to callers but not checked against the body (listed in the trusted base)
-	Label string
-	Modes []string // restrict to float modes ("fp","real"); empty = all
-	Src   string
-	E     Expr
-	Line  int
-	File  string
+	Label   string
+	Modes   []string // restrict to float modes ("fp","real"); empty = all
+	Src     string
+	E       Expr
+	Line    int
+	File    string
 }
 
 type LoopSpec struct {
@@ -534,14 +534,14 @@ type SpecFunc struct {
 }
 
 type Lemma struct {
-	Name    string
-	Pkg     string
-	Clause  *Clause
-	Modes   []string
-	Props   []string
-	Uses    []string // names of lemmas to assume (already proved)
-	Induct  string   // induction variable (int, >= 0): proves P(0) and P(n)=>P(n+1)
-	Assumed bool     // stated without proof (listed in the trusted base)
+	Name      string
+	Pkg       string
+	Clause    *Clause
+	Modes     []string
+	Props     []string
+	Uses      []string    // names of lemmas to assume (already proved)
+	Induct    string      // induction variable (int, >= 0): proves P(0) and P(n)=>P(n+1)
+	Assumed   bool        // stated without proof (listed in the trusted base)
 	Instances []LemmaInst // explicit instances of other lemmas: name, variable, expression
 }
 
@@ -555,7 +555,7 @@ type AtCall struct {
 	Callee string
 	Clause *Clause
 	AtText string // apply-at: source text fragment that identifies the line before which the lemma is applied
-	Apply  bool // apply-at-call: Clause.E is lemmaName(args...); the lemma instance is assumed at the call
+	Apply  bool   // apply-at-call: Clause.E is lemmaName(args...); the lemma instance is assumed at the call
 }
 
 type AssertAt struct {
@@ -564,34 +564,34 @@ type AssertAt struct {
 }
 
 type Contract struct {
-	Pkg      string // package path
-	Func     string // receiver-qualified name
-	Variant  string // behaviour tag: a second contract of the same function under extra preconditions
-	Props    []string
-	Level    string // P or PA
-	Ints     string // int | bv
-	Floats   []string
-	Requires []*Clause
-	Ensures  []*Clause
-	Modifies []string
-	ModAll   bool
+	Pkg       string // package path
+	Func      string // receiver-qualified name
+	Variant   string // behaviour tag: a second contract of the same function under extra preconditions
+	Props     []string
+	Level     string // P or PA
+	Ints      string // int | bv
+	Floats    []string
+	Requires  []*Clause
+	Ensures   []*Clause
+	Modifies  []string
+	ModAll    bool
 	Preserves []string // heap designators exempt from "modifies *"
 	Borrows   []string // parameters the function does not retain after it returns (assumed; see keepPrivate)
-	Loops    map[int]*LoopSpec
-	AtCalls  []*AtCall
-	Asserts  []*AssertAt
-	Trusted  bool // contract assumed, body not verified
-	NoSafe   bool // skip safety sweep
-	Pure     bool
-	MayPanic bool
-	Logical  []QVar   // logical variables: universally quantified over the whole contract
-	Opaque   []string // spec functions whose definitions are hidden in this function's VCs
-	Uses     []string // lemmas assumed at entry (each proved separately)
+	Loops     map[int]*LoopSpec
+	AtCalls   []*AtCall
+	Asserts   []*AssertAt
+	Trusted   bool // contract assumed, body not verified
+	NoSafe    bool // skip safety sweep
+	Pure      bool
+	MayPanic  bool
+	Logical   []QVar            // logical variables: universally quantified over the whole contract
+	Opaque    []string          // spec functions whose definitions are hidden in this function's VCs
+	Uses      []string          // lemmas assumed at entry (each proved separately)
 	Scenarios map[string]string // clause label -> scenario file under /verif/scenarios
-	Ghost    []string // ghost variables this function may change (with ensures about them)
-	File     string
-	Line     int
-	Opts     map[string]string
+	Ghost     []string          // ghost variables this function may change (with ensures about them)
+	File      string
+	Line      int
+	Opts      map[string]string
 }
 
 type GhostVar struct {
